@@ -200,8 +200,9 @@ harness! { fn c13_qf_quotient_remainder_b1r63() { qr_case(1, 63); } }
 harness! { fn c13_qf_quotient_remainder_b4r60() { qr_case(4, 60); } }
 
 // ---- union: Ok => enc(A ∪ B); Err <=> |A ∪ B| > N, state restored; other operand untouched ----
-fn step_union<const N: usize, const R: usize>(bq: usize, br: usize) {
-    let ma: u32 = any();
+fn step_union<const N: usize, const R: usize>(bq: usize, br: usize, fixed_a: Option<u32>) {
+    // partitioned over the receiving set A (concrete per harness) to keep each CBMC run small
+    let ma: u32 = match fixed_a { Some(m) => m, None => any() };
     let mb: u32 = any();
     assume(ma < (1u32 << (N * R)) && mb < (1u32 << (N * R)));
     assume(popcount(ma) <= N && popcount(mb) <= N);
@@ -222,9 +223,26 @@ fn step_union<const N: usize, const R: usize>(bq: usize, br: usize) {
         assert!(same::<N>(&a, &lu), "C06 C01 union equals the canonical layout of A ∪ B");
     }
 }
-harness! { #[kani::unwind(6)] fn c06_qf_union_b1r1() { step_union::<2, 2>(1, 1); } }
-harness! { #[kani::unwind(6)] fn c06_qf_union_b1r2() { step_union::<2, 4>(1, 2); } }
-harness! { #[kani::unwind(12)] fn c06_qf_union_b2r1() { step_union::<4, 2>(2, 1); } }
+macro_rules! qf_union_harness {
+    ($name:ident, $n:expr, $r:expr, $bq:expr, $br:expr, $a:expr, $unw:expr) => {
+        harness! { #[kani::unwind($unw)] fn $name() { step_union::<$n, $r>($bq, $br, $a); } }
+    };
+}
+// 2 slots, 1-bit remainders: all 11 receiving sets with |A| <= 2, every B
+qf_union_harness!(c06_qf_union_b1r1_a0, 2, 2, 1, 1, Some(0), 6);
+qf_union_harness!(c06_qf_union_b1r1_a1, 2, 2, 1, 1, Some(1), 6);
+qf_union_harness!(c06_qf_union_b1r1_a2, 2, 2, 1, 1, Some(2), 6);
+qf_union_harness!(c06_qf_union_b1r1_a3, 2, 2, 1, 1, Some(3), 6);
+qf_union_harness!(c06_qf_union_b1r1_a4, 2, 2, 1, 1, Some(4), 6);
+qf_union_harness!(c06_qf_union_b1r1_a5, 2, 2, 1, 1, Some(5), 6);
+qf_union_harness!(c06_qf_union_b1r1_a6, 2, 2, 1, 1, Some(6), 6);
+qf_union_harness!(c06_qf_union_b1r1_a8, 2, 2, 1, 1, Some(8), 6);
+qf_union_harness!(c06_qf_union_b1r1_a9, 2, 2, 1, 1, Some(9), 6);
+qf_union_harness!(c06_qf_union_b1r1_a10, 2, 2, 1, 1, Some(10), 6);
+qf_union_harness!(c06_qf_union_b1r1_a12, 2, 2, 1, 1, Some(12), 6);
+// larger configurations (thorough): receiving set symbolic
+qf_union_harness!(c06_qf_union_b1r2, 2, 4, 1, 2, None, 6);
+qf_union_harness!(c06_qf_union_b2r1, 4, 2, 2, 1, None, 12);
 
 // clear() == fresh, from ARBITRARY array contents (16-bit remainders: one block holds the 4 slots)
 harness! {
